@@ -439,6 +439,25 @@ _ADD = {
     "C19": (" A re-entrant kind gives a record an attribute value whose LogValue/String/Error/MarshalText logs another record through a handler of the same tree (optionally nested twice, inside a group): Handle must return and every record, inner and outer, must produce exactly its line.", ""),
     "C20": (" Handlers may also hijack the connection (through http.Hijacker or a response controller) and write to it directly, or flush through a response controller; each client must receive exactly its own hijacked bytes / flush count.", ""),
 }
+# Round 7.
+_ADD7 = {
+    "C01": " A long-line kind feeds hostsfile.Parse / NewDefaultStorage sources with one line of 4095..200000 bytes (around bufio's 64 KiB token limit) and scan buffers of capacity 0..300000; a counting HandleSet turns an unbounded loop into an immediate failure.",
+    "C02": " The shared edit operator also replaces an ASCII character by a rune that byte()/uint16() truncation maps to it (c+0x100k, c+0x10000k).",
+    "C03": " Generated names include fake A-labels (xn--<ldh>-, nested xn--xn--<ldh>--, upper-case prefixes), i.e. names whose IDNA conversion is ASCII but differs from the input, and truncation-alias runes.",
+    "C04": " ARPA-shaped texts include fake A-label wrappings of any label (4.3.2.1.xn--in-addr-.arpa) and truncation-alias runes.",
+    "C06": " A positional-splice generator takes every byte from one of two listed bases / well-known byte patterns at the same offset (plus noise bytes).",
+    "C07": " The caller's input buffer is overwritten (vp.Scribble) right after every UnmarshalText call, before the record is compared, and the reuse kind parses from one shared line buffer.",
+    "C08": " The verdict on each line (well-formed or not, and which record) comes from the independent field-grammar model of C07, not from Record.UnmarshalText; only the wording of an ill-formed line's error is taken from it.",
+    "C12": " Address generators include near-mapped values (the ::ffff:0:0/96 pattern with one or two prefix bytes changed).",
+    "C14": " Decoding is done from a caller-owned copy of the text/JSON that is overwritten (vp.Scribble) before the decoded value is compared.",
+    "C15": " Underlying readers may also return a negative count (the library guards against it): the call must deliver nothing, return an error and leave the allowance unchanged.",
+    "C18": " Panicking services panic with a string, an error value, nil, or a genuine runtime.Error (nil map write, index out of range).",
+    "C20": " Requests may have an empty RemoteAddr and/or RequestURI (in-process requests): their records must carry exactly those (empty) values.",
+}
+for _pid, _lt in _ADD7.items():
+    PROPS[_pid]["level_text"] += _lt
+PROPS["C08"]["level_note"] = PROPS["C08"]["level_note"].replace("Trusted: Record.UnmarshalText as the per-line oracle (decided separately by C07)", "Trusted: the field-grammar model shared with C07 (netip.ParseAddr + the C03 name model) for the per-line verdict")
+
 for _pid, (_lt, _rule) in _ADD.items():
     PROPS[_pid]["level_text"] += _lt
     PROPS[_pid]["rule"] += _rule
